@@ -214,6 +214,11 @@ func (s *String) Interface() interface{} {
 }
 
 func (s *String) Compare(other Object) (int, error) {
+	if bs, ok := other.(*ByteSlice); ok {
+		// byte_slice compares with string: so does string with byte_slice
+		cmp, err := bs.Compare(s)
+		return -cmp, err
+	}
 	otherStr, ok := other.(*String)
 	if !ok {
 		return 0, errz.TypeErrorf("type error: unable to compare string and %s", other.Type())
@@ -230,6 +235,10 @@ func (s *String) Compare(other Object) (int, error) {
 func (s *String) Equals(other Object) Object {
 	if other.Type() == STRING && s.value == other.(*String).value {
 		return True
+	}
+	if bs, ok := other.(*ByteSlice); ok {
+		// byte_slice == string compares the bytes: == is symmetric
+		return bs.Equals(s)
 	}
 	return False
 }
